@@ -38,6 +38,12 @@ var payloads = []payload{
 	{"plain", `<interfaces xmlns="urn:x"><interface><name>eth0</name></interface></interfaces>`},
 	{"utf8", `<desc>é日本語ü</desc>`},
 	{"long", `<d>` + strings.Repeat("x", 5000) + `</d>`},
+	// long multi-byte payloads at every alignment of a 4-byte character: whatever size a sender splits long
+	// messages at, a character straddles the boundary in some of them
+	{"longwide0", `<d>` + strings.Repeat("😀", 1500) + `</d>`},
+	{"longwide1", `<d>a` + strings.Repeat("😀", 1500) + `</d>`},
+	{"longwide2", `<d>ab` + strings.Repeat("😀", 1500) + `</d>`},
+	{"longwide3", `<d>abc` + strings.Repeat("😀", 1500) + `</d>`},
 	{"attrs", `<a:sys xmlns:a="urn:a" a:op="merge" b="c"><a:x/></a:sys>`},
 	{"selfclosed", `<a/>`},
 	{"emptypair", `<a></a>`},
@@ -283,14 +289,12 @@ func scenario(oc opCase) sched.Scenario {
 									if !bytes.Equal(m, r.Input) {
 										vio("c03:wire-differs-from-input", "request %d: decoded %q, response.Input %q", i, trunc(m), trunc(r.Input))
 									}
-									var framed []byte
-									if v == "1.0" {
-										framed = append(append([]byte{}, r.Input...), dev.Delim10...)
-									} else {
-										framed = []byte("#" + strconv.Itoa(len(r.Input)) + "\n" + string(r.Input) + "\n##")
-									}
-									if !bytes.Equal(framed, r.FramedInput) {
-										vio("c03:framed-input", "request %d: FramedInput %q is not the framed form of Input", i, trunc(r.FramedInput))
+									// FramedInput is Input in the negotiated framing: any valid framing of it (the line feed that
+									// opens a 1.1 chunk stream and the one that ends its end marker are sent by themselves, as the
+									// return character of the previous message and of this one)
+									fm, ferr := dev.StrictStream(v, append(append([]byte{'\n'}, r.FramedInput...), '\n'))
+									if ferr != nil || len(fm) != 1 || !bytes.Equal(fm[0], r.Input) {
+										vio("c03:framed-input", "request %d: FramedInput %q is not the framed form of Input (%v)", i, trunc(r.FramedInput), ferr)
 									}
 								}
 								// 2. content of the request under test
@@ -445,7 +449,7 @@ func TestCheck(t *testing.T) {
 	sched.Main(t, sched.Check{
 		ID:    "C03",
 		Level: "exploration",
-		Rule: "exhaustive product: operation (get, get-config, edit-config, copy/delete-config, lock/unlock, validate, 7 commit variants, discard, raw rpc) x argument alphabet (3 datastores, 13 XML payloads incl. multi-byte, 5000-byte, attributes/namespaces, empty-element spellings (several per document, with inner whitespace), entities, percent signs; 2 xpath strings; 5 defaults modes) x {1.0,1.1} x {self-closing on,off} x {header on,off} x position 1..3 in a session (followed by two option-less canary requests that must carry nothing of it); each cell is one session on the real driver over the server model; " +
+		Rule: "exhaustive product: operation (get, get-config, edit-config, copy/delete-config, lock/unlock, validate, 7 commit variants, discard, raw rpc) x argument alphabet (3 datastores, 17 XML payloads incl. multi-byte, 5000-byte, 6000 bytes of 4-byte characters at 4 alignments, attributes/namespaces, empty-element spellings (several per document, with inner whitespace), entities, percent signs; 2 xpath strings; 5 defaults modes) x {1.0,1.1} x {self-closing on,off} x {header on,off} x position 1..3 in a session (followed by two option-less canary requests that must carry nothing of it); each cell is one session on the real driver over the server model; " +
 			"oracle: strict RFC 6242 / end-of-message stream decoder over the bytes the server received, byte equality with Response.Input/FramedInput, encoding/xml tree equality with an independently written RFC 6241 template, option-independence comparisons across cells; distinct = distinct (operation case, cell, position)",
 		Assumptions: []string{"whitespace-only text equals no text (what forcing self-closing tags may change)", "0 schedule deviations: the property has no schedule dimension"},
 		Scenarios:   scenarios,
